@@ -20,6 +20,7 @@ type c07entry struct {
 	needSelf bool // needs a struct/resource method host (or a condition host)
 	needCapt bool // needs the closure host
 	needRes  bool // needs the resource method host
+	needInit bool // needs the view-initializer host (fields fra / frd / fras / fp of the value under construction)
 	onlyC    bool // only valid in the contract layout
 	onlyS    bool // only valid in the script layout
 	// harmless: no effect the statement forbids even when executed (pure, or only touches values created
@@ -46,6 +47,13 @@ var c07catalog = []c07entry{
 	{id: "index-write-through-local-ref-to-direct", stmt: "let g1 = &@ARR@ as auth(Mutate) &[Int]\ng1[0] = 7"},
 	{id: "index-write-through-borrowed-storage-ref", stmt: "let b1 = acct.storage.borrow<auth(Mutate) &[Int]>(from: /storage/arr)!\nb1[0] = 7"},
 	{id: "index-write-through-capability-borrow", stmt: "let b2 = acct.capabilities.borrow<auth(Mutate) &[Int]>(/public/arr)!\nb2[0] = 7"},
+	// ---- writes rooted at `self` inside a view initializer that leave the value under construction
+	{id: "init-index-write-through-self-ref-field", stmt: "self.fra[0] = 7", needInit: true},
+	{id: "init-dict-write-through-self-ref-field", stmt: "self.frd[\"k\"] = 7", needInit: true},
+	{id: "init-index-write-through-self-ref-array-element", stmt: "self.fras[0][0] = 7", needInit: true},
+	{id: "index-write-through-ref-field-of-local-struct", stmt: "let hw = RefHolder(ra)\nhw.r[0] = 7"},
+	{id: "dict-write-through-ref-field-of-local-struct", stmt: "let hd = DictRefHolder(rd)\nhd.r[\"k\"] = 7"},
+	{id: "init-write-own-array-field-element", stmt: "self.fown[0] = 9", needInit: true, harmless: true, pure: true},
 	// ---- mutating container built-ins, directly and through references
 	{id: "array-append-direct", stmt: "@ARR@.append(9)", expr: "@ARR@.append(9)"},
 	{id: "array-append-ref", stmt: "ra.append(9)", expr: "ra.append(9)"},
